@@ -2,7 +2,7 @@
 import vlib
 from props import fam_sym
 
-MODEL_VO = ['Move/Move.vo', 'Move/Expand.vo', 'Move/PlusMinus.vo']
+MODEL_VO = ['Move/Move.vo', 'Move/Expand.vo', 'Move/PlusMinus.vo', 'Move/ReindexRows.vo']
 
 
 def gen_tables():
